@@ -138,6 +138,10 @@ def check_nearest(case):
     except Exception as e:  # noqa
         return [("earlier_result_overwritten" if isinstance(e, Overwritten) else "exception", f"{type(e).__name__}: {str(e)[:100]}")]
     bad = []
+    if case.get("int64") and (vals.dtype.kind not in "iu" or vals2.dtype.kind not in "iu"):
+        # comparing a float result with the integer identity field would round both sides: the result must still be an integer array
+        bad.append(("integer_payload_changed_type", f"delivered dtype {vals.dtype}"))
+        return bad
     # the second data set (other values at every source) goes through the same adapter: same selection
     sel_ok = np.array_equal(gmask, gmask2) and all(gmask[j] or tm[j] or vals2[j] == (ident[::-1] + 7)[int(vals[j] - ident[0])] for j in range(len(tp)) if ident[0] <= vals[j] < ident[0] + len(sp))
     if not sel_ok:
